@@ -44,7 +44,8 @@ def s_arclength(tier):
                      st.one_of(st.none(), st.none(), st.none(), st.lists(st.floats(-5, 5), min_size=2, max_size=12)),
                      st.one_of(st.none(), st.none(), st.tuples(st.tuples(st.floats(-50, 50), st.floats(-50, 50)).map(list),
                                                                st.floats(-6.28, 6.28)).map(list))).map(
-        lambda t: {"ll": strip(t[0]), "q": t[1], "drawn": t[2] == 0, "z": t[3], "motion": t[4]})
+        lambda t: {"ll": strip(t[0]), "q": t[1], "drawn": t[2] == 0, "z": t[3], "motion": t[4]}).flatmap(
+        lambda d: st.one_of(st.none(), st.none(), st.floats(0.15, 0.85)).map(lambda f: dict(d, centre_at=f)))
 
 
 def strip(ll):
@@ -93,6 +94,16 @@ def check_arclength(r, ctx):
     for i in range(1, len(c)):
         if ndist(c[i - 1], c[i]) < 1e-6:
             ctx.discard("coincident-vertices")
+    if r.get("centre_at") is not None:
+        # the centre line is an independent constructor argument: here it is not the mid line of the bounds
+        f = r["centre_at"]
+        ll = dict(ll, center=[[q[0] + f * (p[0] - q[0]), q[1] + f * (p[1] - q[1])] for p, q in zip(ll["left"],
+                                                                                            ll["right"])])
+        c = ll["center"]
+        for i in range(1, len(c)):
+            if geom.dist(c[i - 1], c[i]) < 1e-6:
+                ctx.discard("coincident-vertices")
+        ctx.label("centre-not-mid-line")
     if r.get("z"):
         # polylines may carry a z coordinate (documented: convert_to_2d exists for them); arc length is the 3D length
         zs = [r["z"][i % len(r["z"])] for i in range(len(c))]
